@@ -1447,7 +1447,7 @@ bucket_setdefault(Bucket *self, PyObject *args)
 
 
 /* forward declaration */
-static int
+static Py_ssize_t
 Bucket_length(Bucket *self);
 
 static PyObject *
@@ -1903,10 +1903,10 @@ bucket_tp_clear(Bucket *self)
 }
 
 /* Code to access Bucket objects as mappings */
-static int
+static Py_ssize_t
 Bucket_length( Bucket *self)
 {
-    int r;
+    Py_ssize_t r;
     UNLESS (PER_USE(self))
         return -1;
     r = self->len;
